@@ -70,6 +70,12 @@ def mk(rng, keys, vals, sel, entry=None, param=None, beta=None):
         if rng.random() < 0.2 and c["vcont"] == "series" or rng.random() < 0.1:
             c["layout"] = "bygroup"
             c["kenc"] = rng.pick(["f64", "str"]) if NULL in keys else rng.pick(["f64", "i64", "str"])
+        # chunk-wise factorized keys (per-chunk local codes until something unifies them)
+        if n >= 4 and rng.random() < 0.3 and c["kenc"] != "cat" and not (c["kenc"] == "str" and keys[0] == NULL):
+            if rng.random() < 0.5:
+                c["T"] = rng.pick([2, 4])
+            elif c["kenc"] in ("f64", "i64"):
+                c["kcont"] = ("pachunk", [n // 2, n - n // 2])
     return c
 
 
@@ -107,9 +113,20 @@ def build_cases(tier, seed):
             cnt[k] = cnt.get(k, 0) + 1
             if k != NULL and cnt[k] > 7:
                 keys[j] = NULL
-        vals = [rng.pick([NULL, 1, 2, 3]) for _ in range(n)]
+        vals = [rng.pick([NULL, 1, 2, 3]) for _ in range(n)] if rng.random() < 0.5 else [rng.pick([NULL, 0, 0, 1, 2, -1, -2]) for _ in range(n)]
         sel = [int(rng.random() < 0.75) for _ in range(n)] if rng.random() < 0.4 else [1] * n
         cases.append(mk(rng, keys, vals, sel))
+    # zeros and values that cancel: a running weighted sum of exactly 0 is not "nothing observed yet"
+    for n in range(1, 5):
+        for vals in itertools.product([NULL, 0, 1, -1], repeat=n):
+            if 0 not in vals and not (1 in vals and -1 in vals):
+                continue
+            if n == 4 and rng.random() < (0.7 if tier == "quick" else 0.0):
+                continue
+            for param in ("alpha", "timed"):
+                cases.append(mk(rng, [1] * n, vals, [1] * n, entry=rng.pick(["ema", "ema_grouped", "gb"]), param=param))
+                keys = [rng.pick([1, 2]) for _ in range(n)]
+                cases.append(mk(rng, keys, vals, [1] * n, entry=rng.pick(["ema_grouped", "gb"]), param=param))
     return cases
 
 
